@@ -5,7 +5,9 @@
    The two Go maps of EncodeParam are association lists *in the order in which `range`
    enumerates them* (any order; theorems quantify over it).  Decoded maps are association
    lists in insertion order, newest first: `info[k] = v` is [(k, v) :: m] and a lookup returns
-   the first match, i.e. the value assigned last.
+   the first match, i.e. the value assigned last.  A decoded map is an [option]: [None] is Go's
+   nil map (no section of that kind was met), [Some []] the empty map made by a section that
+   turned out to hold no entry.
 
    Writers: the model of a bufiox.Writer is the byte string appended so far (C05 covers the
    writer itself); every function returns the bytes it appends and the count the Go function
@@ -139,8 +141,8 @@ Record dparam := {
   d_flags : N;
   d_seq : Z;
   d_pid : N;
-  d_int : list (N * bytes);
-  d_str : list (bytes * bytes);
+  d_int : option (list (N * bytes));       (* None: nil map *)
+  d_str : option (list (bytes * bytes));
   d_hlen : Z;
   d_plen : Z
 }.
@@ -205,9 +207,12 @@ Definition read_acl (buf : bytes) (idx : N) (m : list (bytes * bytes))
   do (v, n) <- wrap_kv (read_str2 buf idx);
   Ok (idx + n, (gdpr_key, v) :: m).
 
+(* if m == nil { m = make(map...) } *)
+Definition made {A} (o : option (list A)) : list A := match o with Some m => m | None => [] end.
+
 Fixpoint read_kv_info (fuel : nat) (buf : bytes) (idx : N)
-         (im : list (N * bytes)) (sm : list (bytes * bytes))
-  : res (list (N * bytes) * list (bytes * bytes)) :=
+         (im : option (list (N * bytes))) (sm : option (list (bytes * bytes)))
+  : res (option (list (N * bytes)) * option (list (bytes * bytes))) :=
   match fuel with
   | O => Err e_fuel
   | S f =>
@@ -219,14 +224,14 @@ Fixpoint read_kv_info (fuel : nat) (buf : bytes) (idx : N)
       let idx1 := idx + 1 in
       if id =? id_pad then read_kv_info f buf idx1 im sm
       else if id =? id_kv then
-        do (idx2, sm') <- read_section rd_str_entry buf idx1 sm;
-        read_kv_info f buf idx2 im sm'
+        do (idx2, sm') <- read_section rd_str_entry buf idx1 (made sm);
+        read_kv_info f buf idx2 im (Some sm')
       else if id =? id_intkv then
-        do (idx2, im') <- read_section rd_int_entry buf idx1 im;
-        read_kv_info f buf idx2 im' sm
+        do (idx2, im') <- read_section rd_int_entry buf idx1 (made im);
+        read_kv_info f buf idx2 (Some im') sm
       else if id =? id_acl then
-        do (idx2, sm') <- read_acl buf idx1 sm;
-        read_kv_info f buf idx2 im sm'
+        do (idx2, sm') <- read_acl buf idx1 (made sm);
+        read_kv_info f buf idx2 im (Some sm')
       else Err e_infoid
     end
   end.
@@ -282,7 +287,7 @@ Definition decode_info (tl fl : N) (sq : Z) (size : N) (info : bytes) : res dpar
     if (Z.of_N size - 2 <? Z.of_N nt)%Z then Err e_trans
     else
       do idx <- read_transforms info 2 (N.to_nat nt);
-      do (im, sm) <- read_kv_info (S (length info)) info idx [] [];
+      do (im, sm) <- read_kv_info (S (length info)) info idx None None;
       let hlen := u32 (u32 size + c_meta) in
       Ok {| d_flags := fl; d_seq := sq; d_pid := pid; d_int := im; d_str := sm;
             d_hlen := Z.of_N hlen;
@@ -301,3 +306,7 @@ Definition decode (b : bytes) : N * res dparam :=
     | Panic w => (c_meta, Panic w)
     | OOB => (c_meta, OOB)
     end.
+
+(* DecodeFromBytes(ctx, bs): Decode over bufiox.NewBytesReader(bs), a reader that delivers
+   exactly [bs]; the bytes consumed are not reported. *)
+Definition decode_from_bytes (b : bytes) : res dparam := snd (decode b).
